@@ -74,6 +74,12 @@ Theorem C03_history_extension :
 Proof. exact Proofs.BlockHistExt.spec_decode_ext. Qed.
 Print Assumptions C03_history_extension.
 
+(* 4. the model's block loop never runs out of fuel (no call result is an artefact of the fuel) *)
+Theorem C03_update_fuel_suffices :
+  forall blk c src bc, 0 < c_maxBlock c -> fst (compressUpdateImpl blk c src bc) <> OutOfFuel.
+Proof. exact update_never_out_of_fuel. Qed.
+Print Assumptions C03_update_fuel_suffices.
+
 (* ---- the hypotheses are satisfiable, non-vacuously ---- *)
 (* a block compressor that really compresses (40 x 'a' -> 11 bytes) and meets the contract *)
 Example C03_ex_contract : blk_contract spec_decode ex_blk /\ ex_blk 0 [] ex_content = Some ex_block /\ length ex_block = 11%nat.
